@@ -100,6 +100,9 @@ pub fn render(c: &Circuit, r: &mut Prng) -> String {
             let p = &c.pins[i];
             if !p.kind.is_empty() {
                 s.push_str(&format!("<elementName>{}</elementName>", p.kind));
+            } else if r.chance(1, 2) {
+                // a name element without any character data names no kind of element either
+                s.push_str(*r.pick(&["<elementName/>", "<elementName></elementName>", "<elementName><!-- In --></elementName>"]));
             }
             s.push_str(nl(r));
             s.push_str("<elementAttributes>");
